@@ -51,10 +51,55 @@ def reflected_ops(mm, cid):
     return out
 
 
-def build_dynamic(mm):
-    """store.build_mm + the extras, the way a user of the dynamic API writes them"""
+DYN_STYLES = ('append', 'extend', 'ctor')
+
+
+def build_mm_styled(mm, style):
+    """store.build_mm, with the other ways the dynamic API offers to say the same thing: supertypes and features given in
+    bulk (extend / +=) or supertypes through the EClass constructor"""
     from pyecore import ecore as E
-    pk, classes, feats = store.build_mm(mm)
+    pk = E.EPackage('p', 'http://verif/p', 'p')
+    classes = []
+    for (cid, abstract, supers) in mm.classes:
+        if style == 'ctor' and supers:
+            c = E.EClass(f'C{cid}', superclass=tuple(classes[s_] for s_ in supers), abstract=abstract)
+        else:
+            c = E.EClass(f'C{cid}', abstract=abstract)
+        classes.append(c)
+        pk.eClassifiers.append(c)
+    if style != 'ctor':
+        for (cid, abstract, supers) in mm.classes:
+            if supers:
+                if style == 'extend':
+                    classes[cid].eSuperTypes.extend([classes[s_] for s_ in supers])
+                else:
+                    for s_ in supers:
+                        classes[cid].eSuperTypes.append(classes[s_])
+    feats = []
+    for f in mm.feats:
+        if f.ref:
+            ef = E.EReference(f.name, classes[f.typ[1]], upper=-1 if f.many else 1, ordered=f.ordered,
+                              unique=f.unique, containment=f.cont)
+        else:
+            ef = E.EAttribute(f.name, getattr(E, f.typ[1]), upper=-1 if f.many else 1, ordered=f.ordered, unique=f.unique)
+        feats.append(ef)
+    for (cid, _a, _s) in mm.classes:
+        own = [feats[f.fid] for f in mm.feats if f.owner == cid]
+        if style == 'extend' and own:
+            classes[cid].eStructuralFeatures.extend(own)
+        else:
+            for ef in own:
+                classes[cid].eStructuralFeatures.append(ef)
+    for f in mm.feats:
+        if f.opp is not None and f.fid < f.opp:
+            feats[f.fid].eOpposite = feats[f.opp]
+    return pk, classes, feats
+
+
+def build_dynamic(mm, style='append'):
+    """the description as dynamic EClasses + the extras, the way a user of the dynamic API writes them"""
+    from pyecore import ecore as E
+    pk, classes, feats = build_mm_styled(mm, style)
     for fid, v in getattr(mm, 'dflt', {}).items():
         feats[fid].default_value = v
     for (cid, _a, _s) in mm.classes:
@@ -141,8 +186,11 @@ def describe_pass(ctx):
         rng = common.sub_rng(ctx.seed, 'C13', 'descr', h)
         mm = enrich(store.gen_mm(rng), rng)
         rep = {'case': h, 'pass': 'description'}
+        dstyle = DYN_STYLES[h % len(DYN_STYLES)]
+        rep['dynamic_style'] = dstyle
+        ctx.count('dynamic-style/' + dstyle)
         try:
-            _pk, dyn, _f = build_dynamic(mm)
+            _pk, dyn, _f = build_dynamic(mm, dstyle)
         except Exception as e:
             ctx.violate({'clause': 'dynamic-definition-raised'}, f'{type(e).__name__}: {e}', rep); continue
         for style in STYLES:
@@ -167,13 +215,20 @@ def describe_pass(ctx):
             for cid in range(len(mm.classes)):
                 views = []
                 for ec in (dyn[cid], sta[cid]):
+                  try:
                     v = [[f.name for f in ec.eAllStructuralFeatures()], sorted(x.name for x in ec.eAllSuperTypes()),
                          sorted(o.name for o in ec.eAllOperations())]
                     if not ec.abstract:
                         o = ec()
                         v.append(sorted(dir(o)))
                         v.append([(k.name, isinstance(o, k), isinstance(o, k.python_class)) for k in (dyn if ec is dyn[cid] else sta)])
+                        if not mm.explicit:
+                            # (a static feature bound under a key other than its explicit name is readable under the key
+                            # only: that rendering is this harness's invention, kept for the description half only)
+                            v.append([(f.name, repr(o.eGet(f))[:40] if not f.many else len(o.eGet(f))) for f in ec.eAllStructuralFeatures()])
                     views.append(v)
+                  except Exception as e:
+                    views.append(f'raised {type(e).__name__}: {str(e)[:100]}')
                 ctx.evaluations += 1
                 if views[0] != views[1]:
                     ctx.violate({'clause': 'views-differ', 'style': style}, f'C{cid}: eAllStructuralFeatures / eAllSuperTypes / '
@@ -265,8 +320,10 @@ def history_case(ctx, h, nops, tmp, model_in, expect):
         if not f.ref and not f.many and rng.random() < .5:
             mm.dflt[f.fid] = {'EInt': rng.choice([7, -1]), 'EString': 'dflt', 'EBoolean': True}[f.typ[1]]
 
+    dstyle = DYN_STYLES[h % len(DYN_STYLES)]
+
     def dyn_builder(m):
-        return build_dynamic(m)
+        return build_dynamic(m, dstyle)
     w = store.World(mm, builder=dyn_builder)
     g = store.Gen(rng, mm, w)
     lines, recs = [], []
@@ -274,7 +331,7 @@ def history_case(ctx, h, nops, tmp, model_in, expect):
         line = g.next_op()
         rec = w.apply(line)
         lines.append(line); recs.append((rec, w.dump(), list(w.notifs)))
-    rep = {'history': h, 'metamodel': mm.lines(), 'ops': lines}
+    rep = {'history': h, 'metamodel': mm.lines(), 'ops': lines, 'dynamic_style': dstyle}
     statics = {}
     for style in STYLES:
         b = static_render.builder(style)
@@ -339,7 +396,19 @@ def history_pass(ctx):
     model_in, expect = [], []
     try:
         for h in range(n):
-            history_case(ctx, h, nops, tmp, model_in, expect)
+            mark = len(model_in)
+            try:
+                history_case(ctx, h, nops, tmp, model_in, expect)
+            except common.InfraError:
+                raise
+            except Exception as e:
+                # observing one of the renderings (reading a feature, dumping the state) raised: that is behaviour too
+                import traceback
+                tb = [l.strip() for l in traceback.format_exc().splitlines() if 'pyecore' in l]
+                del model_in[mark:]; del expect[mark:]
+                ctx.violate({'clause': 'rendering-raised', 'error': type(e).__name__},
+                            f'history {h}: running / observing a rendering raised {type(e).__name__}: {str(e)[:120]} at {tb[-1] if tb else ""}',
+                            {'history': h, 'dynamic_style': DYN_STYLES[h % len(DYN_STYLES)]})
     finally:
         shutil.rmtree(tmp, ignore_errors=True)
     out = common.run_driver('store', model_in)
@@ -358,7 +427,7 @@ def run(ctx):
     common.use_repo()
     ctx.rule = ('(a) generated metamodel descriptions (2-5 classes, inheritance incl. diamonds, abstract classes, attributes with '
                 'defaults, references single/many, containment, opposite pairs, features bound under another key with name=, methods / '
-                'static / class / dunder methods / functions without self, plain class attributes) rendered as dynamic EClasses and as '
+                'static / class / dunder methods / functions without self, plain class attributes) rendered as dynamic EClasses (supertypes / features appended one by one, given in bulk with extend, or supertypes through the constructor) and as '
                 'static classes in both styles (metaclass=MetaEClass, @EMetaclass): reflective description of every class vs the '
                 'description and vs each other, and vs the Lean model of _promote (`driver static`); abstract instantiation; '
                 '(b) generated histories (<= 25/40 public mutations, operands chosen on the live state) run on the dynamic rendering and '
